@@ -9,7 +9,7 @@ ALL = ["C%02d" % i for i in range(1, 20)]
 CHECKS = {
     "C12": ("exploration",
             "bounded exhaustive enumeration of unification problems (holes punched at every position and shift) against reference conversion and scope checks",
-            "Instances are all closed type-directed terms up to 5/6 nodes; patterns are the instance with a hole punched at every position with every shift 0..depth (both argument orders) and with two holes (distinct cells, the same cell twice) at pairs of positions; plus all ordered pairs of the 400/1200 smallest terms hole-free and holed (scope-escape and occurs-check configurations, the latter also chained through an earlier solution: (?0 ?1) against (a[?1] b[?0])), plus holed patterns under contexts with parameters and definitions, plus problems with holes on both sides, plus one hole written at two and three binder depths under every context of up to three parameters / definitions against every choice of context variables. For every success of the real unify: following the solutions terminates, every solution is in scope where its hole was written (the home depth of a hole, depth minus shift, is the same at every copy of it), the filled-in terms are convertible in the reference, the context is untouched.",
+            "Instances are all closed type-directed terms up to 5/6 nodes; patterns are the instance with a hole punched at every position with every shift 0..depth (both argument orders) and with two holes (distinct cells, the same cell twice) at pairs of positions; plus all ordered pairs of the 400/1200 smallest terms and the 160/400 smallest definition groups, hole-free and holed (scope-escape and occurs-check configurations, the latter also chained through an earlier solution: (?0 ?1) against (a[?1] b[?0])), plus holed patterns under contexts with parameters and definitions, plus problems with holes on both sides, plus one hole written at two and three binder depths under every context of up to three parameters / definitions against every choice of context variables. For every success of the real unify: following the solutions terminates, every solution is in scope where its hole was written (the home depth of a hole, depth minus shift, is the same at every copy of it), the filled-in terms are convertible in the reference, the context is untouched.",
             "Trusted: reference conversion (fuel-bounded). `false` on a holed pair is never judged (unification is not complete across reduction). F-HOLE-COPY is a known finding attributed through hook H2.",
             "DESIGN.md 6/C12"),
     "C18": ("exploration",
@@ -29,7 +29,7 @@ CHECKS = {
             "DESIGN.md 6/C01"),
     "C02": ("model_checking",
             "explicit-state exploration of the real evaluator with semantic invariance checked in every visited state against a big-step reference interpreter, plus an exhaustive operand sweep",
-            "All 9 operators and negation on all 361 ordered pairs of 19 boundary integers (beyond 2^64), recursion and mutual recursion for arguments 0..10, Ackermann for small arguments, evaluation-order probes, the terminating examples, groups with placeholder (`_`) definitions in every position, every arithmetic / comparison sentence over literals up to 9/10 tokens (value of the tree grammar.y assigns), every type-directed program, the alias family and the type-valued groups: the real step relation is followed state by state; in every visited state the reference interpreter (environment-based, big-step, division specified by its identity) started from that state must give the same outcome as from the source program, and the final value must be the prescribed one.",
+            "All 9 operators and negation on all 361 ordered pairs of 19 boundary integers (beyond 2^64), recursion and mutual recursion for arguments 0..10, Ackermann for small arguments, evaluation-order probes, the terminating examples, groups with placeholder (`_`) definitions in every position, every arithmetic / comparison sentence over literals up to 11/12 tokens (value of the tree grammar.y assigns), every type-directed program, the alias family and the type-valued groups: the real step relation is followed state by state; in every visited state the reference interpreter (environment-based, big-step, division specified by its identity) started from that state must give the same outcome as from the source program, and the final value must be the prescribed one.",
             "Trusted: reference interpreter. Function-valued results are compared by kind only.",
             "DESIGN.md 6/C02"),
     "C03": ("exploration",
@@ -59,7 +59,7 @@ CHECKS = {
             "DESIGN.md 6/C13"),
     "C15": ("exploration",
             "bounded exhaustive enumeration of texts/ranges, parse-tree node ranges and planted faults in systematically varied layouts",
-            "(a) error::listing is called on every text up to 5/6 fragments (ASCII, 2- and 4-byte letters, space, tab, LF, CRLF) with every diagnostic-shaped range and compared with a specification of the listing (lines shown, 1-based numbers, marked character columns). (b) Every node of the parse result of every sentence up to the bounds must carry a range inside the file whose text re-parses to that node. (c) Every sentence up to the bounds is laid out in 9 ways (fault on line 1/2/9/10, after non-ASCII text on the same line, broken over several lines, CRLF) with planted faults - every use unbound, every binder re-bound (all binder forms), a stray symbol in every gap - and the reported listing must mark exactly the planted identifier or symbol. Type faults (uniquely spelled atoms of the wrong class) are planted at every operand, condition, annotation, applicand, function-type domain and codomain position of the typed programs with the same oracle.",
+            "(a) error::listing is called on every text up to 5/6 fragments (ASCII, 2- and 4-byte letters, space, tab, LF, CRLF) with every diagnostic-shaped range and compared with a specification of the listing (lines shown, 1-based numbers, marked character columns). (b) Every node of the parse result of every sentence up to the bounds must carry a range inside the file whose text re-parses to that node. (c) Every sentence up to the bounds is laid out in 9 ways (fault on line 1/2/9/10, after non-ASCII text on the same line, broken over several lines, CRLF) with planted faults - every use unbound, every binder re-bound (all binder forms), a stray symbol in every gap - and the reported listing must mark exactly the planted identifier or symbol. Type faults (uniquely spelled atoms of the wrong class) are planted at every operand, condition, annotation, applicand, function-type domain and codomain position of the typed programs with the same oracle, and multi-line operands are faulted after every number of preceding lines around 9/10, 99/100 and 999/1000 (the excerpt's line numbers change width).",
             "Trusted: the listing specification and reader in engine/src/model/listing.rs. Reading adopted: a diagnostic for a parenthesised operand may cover the operand with or without the parentheses enclosing only it. One genuine defect is recorded as a known finding (F-RANGE-CHAIN) with a defect-model classifier.",
             "DESIGN.md 6/C15"),
     "C08": ("exploration",
@@ -84,7 +84,7 @@ CHECKS = {
             "DESIGN.md 6/C14"),
     "C17": ("exploration",
             "systematic enumeration of input families on a ladder of sizes with a deterministic work counter",
-            "All 961 input families of period 1 and 2 over 31 syntactic wrappers (including chains that end in two parenthesised operands, and groups of several members whose body or first definition is a parenthesised group), each in 8 variants (well formed, truncated four ways, wrong token planted at three places), are run through the real tokenize+parse at n = 1, 2, 4, ... 512 (quick) / 8192 (thorough) nested repetitions on a 2 GiB stack; the work measure is the number of heap allocations (deterministic), backed by a wall-clock cap per rung. A second sweep runs 558 families of definition groups whose members mention each other by offset sets within {-2,-1,+1,+2,+3} (all lambdas / a non-value head then lambdas / all non-values; complete, truncated, wrong token) up to 256/2048 definitions under the same cap and envelope. A finite ladder gives evidence of the growth law, not a proof for all n; exponential or super-quadratic behaviour shows up within the first rungs.",
+            "All 961 input families of period 1 and 2 over 31 syntactic wrappers (including chains that end in two parenthesised operands, and groups of several members whose body or first definition is a parenthesised group), each in 8 variants (well formed, truncated four ways, wrong token planted at three places), are run through the real tokenize+parse at n = 1, 2, 4, ... 512 (quick) / 4096 (thorough) nested repetitions on a 2 GiB stack; the work measure is the number of heap allocations (deterministic), backed by a wall-clock cap per rung. A second sweep runs 558 families of definition groups whose members mention each other by offset sets within {-2,-1,+1,+2,+3} (all lambdas / a non-value head then lambdas / all non-values; complete, truncated, wrong token) up to 256/1024 definitions under the same cap and envelope. A finite ladder gives evidence of the growth law, not a proof for all n; exponential or super-quadratic behaviour shows up within the first rungs.",
             "Trusted: heap allocations as a proxy for parser work; thresholds (40 T^2 + 2e5 absolute, factor 6 per doubling for well-formed input) are 20x / 3x above the values measured on the unchanged tree.",
             "DESIGN.md 6/C17"),
     "C07": ("exploration",
